@@ -241,3 +241,68 @@ func VerifC09ProviderRefresh() {
 	zz.Assert(zz.Implies(zz.Or(!ok, err != nil), zz.And(s.AccessToken == s0.AccessToken, s.RefreshDeadline.Equal(s0.RefreshDeadline))), "C09."+name+": a refresh that did not happen changes nothing")
 	zz.Assert(zz.Implies(ok, zz.And(err == nil, idp.Token.Called == 1, idp.Token.Status == 200, !idp.Token.BadJSON, s.AccessToken == idp.TokenBody.AccessToken)), "C09."+name+": refreshed means the provider issued the new token")
 }
+
+func init() { VerifHarnesses["VerifC19Revoke"] = VerifC19Revoke }
+
+type verifRevokeIdP struct {
+	Called   int
+	Status   int
+	NetErr   bool
+	ErrBody  verifErrBody
+	BadJSON  bool
+	Path     string
+	Query    string
+	FormBody string
+}
+
+func (i *verifRevokeIdP) RoundTrip(req *http.Request) (*http.Response, error) {
+	i.Called++
+	i.Path, i.Query = req.URL.Path, req.URL.RawQuery
+	if b, ok := req.Body.(*zz.Body); ok && b != nil {
+		i.FormBody = string(b.Data)
+	}
+	i.NetErr = zz.NondetBool("revoke.neterr")
+	if i.NetErr {
+		return nil, errVerifNet
+	}
+	i.Status = verifStatus("revoke.status")
+	zz.Havoc("revoke.error.body", &i.ErrBody)
+	i.BadJSON = zz.NondetBool("revoke.error.badjson")
+	return zz.Response(i.Status, zz.JSONBody(&i.ErrBody, i.BadJSON)), nil
+}
+
+// VerifC19Revoke: the real Google/Okta Revoke: which token is revoked, and which answers count
+// as "signed out" (200, or 400 "already revoked"); everything else is an error.
+func VerifC19Revoke() {
+	idp := &verifRevokeIdP{}
+	VerifSetTransport(idp)
+	pd := verifProviderData()
+	s := &sessions.SessionState{AccessToken: zz.NondetString("access"), RefreshToken: zz.NondetString("refresh"), Email: zz.NondetString("email")}
+	var err error
+	google := zz.NondetBool("google")
+	if google {
+		err = (&GoogleProvider{ProviderData: pd}).Revoke(s)
+	} else {
+		err = (&OktaProvider{ProviderData: pd}).Revoke(s)
+	}
+	zz.Assert(idp.Called == 1 && idp.Path == "/revoke", "C19.revoke calls the identity provider's revoke endpoint once")
+	if google {
+		want := url.Values{}
+		want.Set("token", s.AccessToken)
+		zz.Assert(idp.Query == want.Encode(), "C19.google revokes the session's access token")
+		already := zz.And(idp.Status == 400, !idp.BadJSON, idp.ErrBody.ErrorDescription == "Token expired or revoked")
+		zz.ReachIf(zz.And(err == nil, idp.Status == 200), "google-revoked")
+		zz.ReachIf(zz.And(err == nil, already), "google-already-revoked")
+		zz.Assert((err == nil) == zz.And(!idp.NetErr, zz.Or(idp.Status == 200, already)), "C19.google: signed out iff the provider answered 200 or already-revoked")
+	} else {
+		want := url.Values{}
+		want.Add("token", s.RefreshToken)
+		want.Add("token_type_hint", "refresh_token")
+		want.Add("client_id", pd.ClientID)
+		want.Add("client_secret", pd.ClientSecret)
+		zz.Assert(idp.FormBody == want.Encode(), "C19.okta revokes the session's refresh token (which invalidates the access token too)")
+		zz.ReachIf(zz.And(err == nil, idp.Status == 200), "okta-revoked")
+		zz.Assert(zz.Implies(err == nil, zz.And(!idp.NetErr, zz.Or(idp.Status == 200, idp.Status == 400))), "C19.okta: signed out only if the provider answered 200 or 400 already-invalid")
+		zz.Assert(zz.Implies(zz.And(!idp.NetErr, idp.Status == 200), err == nil), "C19.okta: a 200 answer signs out")
+	}
+}
